@@ -149,18 +149,24 @@ def gen(spec, lv):
 def gen_specs(tier, seed):
     specs = [("own", i) for i in range(len(OWN))]
     s2 = c02.gen_specs("sample-only", seed)
-    specs += [("c02", s) for s in (s2[:len(c02.META) * len(c02.STMTS)] + s2[len(c02.META) * len(c02.STMTS)::(6 if tier == "quick" else 1)])]
+    # (quick: every second metadata x statement combination and every 24th sampled sequence, rotating with the seed - the whole
+    # list is the thorough tier's; the quick tier has to stay well below a quarter of an hour on 16 cores)
+    nb = len(c02.META) * len(c02.STMTS)
+    if tier == "quick":
+        specs += [("c02", s) for s in (s2[:nb][(seed % 2)::2] + s2[nb:][(seed % 24)::24])]
+    else:
+        specs += [("c02", s) for s in s2]
     specs += [("c02", (mk, ())) for mk in c02.META]        # metadata only
     # tdm programs re-declare their variables when serialised: every pair of statement variants (quick: the declaring ones)
     specs += [("c02", s) for s in c02.tdm_pair_specs(varlike_only=(tier == "quick"))]
     # arrays: equal rows only; parameters only where the array is used as an argument (a parameter that occurs only in an
     # unused variable is not part of the serialised program: outside the claim)
-    s5 = [s for s in c05.gen_specs("quick", seed) if s[0] == "scalar" or (len(set(s[2])) == 1 and s[3] in ("none", "exact") and (not s[4] or s[5] == "arg"))]
+    s5 = [s for s in c05.gen_specs("quick", seed) if s[0] == "scalar" or (s[0] == "array" and len(set(s[2])) == 1 and s[3] in ("none", "exact") and (not s[4] or s[5] == "arg"))]
     specs += [("c05", s) for s in s5[::(3 if tier == "quick" else 1)]]
     s6 = [s for s in c06.gen_specs("quick", seed) if s[5] != "use" and s[3] != "func"]
     specs += [("c06", s) for s in s6[::(6 if tier == "quick" else 1)]]
     sx = symx_specs()
-    specs += [("symx", s) for s in (sx[(seed % 5)::5] if tier == "quick" else sx)]
+    specs += [("symx", s) for s in (sx[(seed % 20)::20] if tier == "quick" else sx)]
     return specs
 
 
